@@ -48,4 +48,29 @@ impl ApiAuthError { pub fn insufficient_rights(_a: &Actor, _p: Permission, _r: O
         U.fn(AUTHZ, 'AuthInfo', 'has_permission', requires=[('km', 'obeys_key_model::<MyHandle>()')], ensures=[
             ('is_check', 'r == (self.permissions is Ok && role_allows(*self.permissions->Ok_0, permission, opt_handle(resource)))')]),
     ])
+    # ---- the bridge the handlers rely on (assumed in the handler units, verified here): a request only becomes an
+    #      AuthedRequest through proceed_permitted after exactly this check, or through proceed_unchecked with the auth info
+    #      handed on unchanged ----
+    REQ = 'src/daemon/http/request.rs'
+    for t in ['HyperRequest', 'HttpServer', 'BodyLimits', 'HttpResponse', 'Error']:
+        U.opaque(t, '')
+    U.outside('''
+impl HttpResponse { pub fn response_from_error(_e: Error) -> Self { unimplemented!() } }
+impl From<ApiAuthError> for Error { fn from(_e: ApiAuthError) -> Self { unimplemented!() } }
+''')
+    U.add('''pub assume_specification [HttpResponse::response_from_error] (e: Error) -> (r: HttpResponse);
+pub assume_specification [<Error as From<ApiAuthError>>::from] (e: ApiAuthError) -> (r: Error);
+pub open spec fn auth_allows(a: AuthInfo, p: Permission, res: Option<MyHandle>) -> bool { a.permissions is Ok && role_allows(*a.permissions->Ok_0, p, res) }''')
+    U.struct(REQ, 'Request', derive=[])
+    U.struct(REQ, 'AuthedRequest', derive=[])
+    U.impl("impl<'a> Request<'a>", [
+        U.fn(REQ, 'Request', 'check_permission', requires=[('km', 'obeys_key_model::<MyHandle>()')],
+             closures={0: {'header': '|err: ApiAuthError| -> (o: HttpResponse)', 'ensures': 'true'}},
+             ensures=[('granted_exactly_when', '(r is Ok) <==> auth_allows(self.auth, permission, opt_handle(resource))')]),
+        U.fn(REQ, 'Request', 'proceed_permitted', requires=[('km', 'obeys_key_model::<MyHandle>()')], ensures=[
+            ('only_after_the_check', '(r is Ok) <==> auth_allows(self.auth, permission, opt_handle(resource))'),
+            ('same_request_server_and_identity', 'r is Ok ==> r->Ok_0.0.server == self.server && r->Ok_0.0.request == self.request && r->Ok_0.1 == self.auth')]),
+        U.fn(REQ, 'Request', 'proceed_unchecked', ensures=[
+            ('identity_handed_on_unchanged', 'r.0.server == self.server && r.0.request == self.request && r.1 == self.auth')]),
+    ])
     return U
